@@ -353,10 +353,15 @@ def replay_grep(W, idx, plan):
     else:
         if out:
             probs.append(("replay:grep:stdout:%s" % oc, "stdout %r on a usage error" % out[:200]))
-    if glued_q and probs and oc in ("ran", "killed"):
-        probs = [("quoting:grep:glued-option-ends-in-quote",
+    # Attribution: a deviation that is exactly a known contract class (real output == the transcription's prediction)
+    # keeps its own key; only symptoms of a failing quoting (wrong status/output vs the model, stderr noise, new files)
+    # in a plan with a glued word ending in a quote are reported under the quoting key.
+    other = [pr for pr in probs if not pr[0].startswith("contract:")]
+    if glued_q and other and oc in ("ran", "killed"):
+        probs = [pr for pr in probs if pr[0].startswith("contract:")] + [
+                 ("quoting:grep:glued-option-ends-in-quote",
                   "option word %r ends in a single quote: exit status %d (model %d), stderr %r, new files %r; first symptom %s"
-                  % (glued_q, rc, plan["exit"], err[:200], sorted(set(after) - set(before))[:3], probs[0][0]))]
+                  % (glued_q, rc, plan["exit"], err[:200], sorted(set(after) - set(before))[:3], other[0][0]))]
     shutil.rmtree(d, ignore_errors=True)
     return probs, info
 
